@@ -6,8 +6,8 @@ From RecordUpdate Require Import RecordSet.
 Import RecordSetNotations.
 Local Open Scope Z_scope.
 
-(** ** the ghost trace only grows; [SvConnEnd] is emitted by the [VConnEnd] item alone *)
-Definition noce (e : sev) : Prop := match e with SvConnEnd _ => False | _ => True end.
+(** ** the ghost trace only grows *)
+Definition noce (e : sev) : Prop := True.
 Definition tr_ext (s s' : svstate) : Prop := ∃ l, v_trace s' = l ++ v_trace s ∧ Forall noce l.
 Lemma tr_ext_refl s : tr_ext s s.
 Proof. by exists []. Qed.
@@ -35,8 +35,6 @@ Lemma tr_ext_sess_destroy cfg tid sid s0 s : tr_ext s0 s → tr_ext s0 (sess_des
 Proof. intros H. unfold sess_destroy. case_match; [|done]. apply tr_ext_vemit; [done|]. eapply tr_ext_frame; [|exact H]. by rewrite fr_vsave_trace. Qed.
 Lemma tr_ext_mono s s' e : tr_ext s s' → e ∈ v_trace s → e ∈ v_trace s'.
 Proof. intros (l & -> & _) ?. apply elem_of_app. by right. Qed.
-Lemma tr_ext_connend s s' sid : tr_ext s s' → SvConnEnd sid ∈ v_trace s' → SvConnEnd sid ∈ v_trace s.
-Proof. intros (l & -> & F) [H|H]%elem_of_app; [|done]. rewrite Forall_forall in F. by destruct (F _ H). Qed.
 
 (** ** threads *)
 Definition setpc (pc : spc) (t : sthread) : sthread := t <| st_pc := pc |>.
@@ -233,14 +231,16 @@ Qed.
 
 Record net_spec (s0 s' : svstate) : Prop := {
   ns_sess : v_sess s' = v_sess s0; ns_file : v_file s' = v_file s0; ns_shut : v_shut s' = v_shut s0; ns_locks : v_locks s' = v_locks s0;
-  ns_heap : v_theap s' = v_theap s0; ns_trace : v_trace s' = v_trace s0; ns_timers : v_timers s' = v_timers s0;
+  ns_heap : v_theap s' = v_theap s0; ns_trace : tr_ext s0 s'; ns_timers : v_timers s' = v_timers s0;
   ns_thr : spawned_only (λ op, ∃ sid, op = SConnEnd sid) s0 s' }.
-Lemma net_fold_spec (l : list (str * list clock)) s :
+Lemma net_fold_spec (l : list str) s :
   (∀ tid, (v_next s ≤ tid)%nat → v_thr s !! tid = None) →
-  net_spec s (fold_left (λ s '(sid, _), spawn (SConnEnd sid) VDsFlag s) l s).
+  net_spec s (fold_left (λ s sid, vemit (SvConnEnd sid) (spawn (SConnEnd sid) VDsFlag s)) l s).
 Proof.
   intros Hfresh. apply fold_left_ind.
-  - split; try done. by apply spawned_only_refl.
-  - intros a [sid ?] _ [H1 H2 H3 H4 H5 H6 H6' H7]. split; try done.
-    apply (spawned_only_spawn _ _ _ (SConnEnd sid)); [by eexists|done].
+  - split; try done; [apply tr_ext_refl|by apply spawned_only_refl].
+  - intros a sid _ [H1 H2 H3 H4 H5 H6 H6' H7]. split; try done.
+    + apply tr_ext_vemit; [done|]. eapply tr_ext_frame; [|exact H6]. done.
+    + eapply (spawned_only_frame _ _ (spawn (SConnEnd sid) (first_pc (SConnEnd sid)) a)); [done|done|].
+      apply (spawned_only_spawn _ _ _ (SConnEnd sid)); [by eexists|done].
 Qed.
